@@ -18,3 +18,5 @@ open A2l.Srt
 #print axioms placed_order_stable_ties_partial
 #print axioms placedDistinct_of_increasing
 #print axioms iterInv_after_sort
+#print axioms additions_keep_placed_order
+#print axioms push_keeps_placed_order_partial
